@@ -405,10 +405,12 @@ func runG1(prop, tier string) (*g1Stats, *G1Spec) {
 						allKnown = false
 					}
 				}
-				if allKnown {
-					st.KnownPruned++
+				if !allKnown {
+					continue // a violating state is not expanded further
 				}
-				continue // a violating state is not expanded further
+				// a state that only shows a listed known finding is expanded like any other, so that a different
+				// violation further down the same path is still found
+				st.KnownPruned++
 			}
 			st.Shapes[s.Heights]++
 			if seen[node.cfg][s.Key] {
